@@ -947,9 +947,13 @@ func (g *generatorObject) step(res Value, resType resultType, ex *Exception) Val
 }
 
 func (g *generatorObject) delegate(v Value) Value {
+	// The generator is still running while its delegate is being called (i.e. re-entering it is an error)
+	state := g.state
+	g.state = genStateExecuting
 	ex := g.val.runtime.try(func() {
 		g.delegated = g.val.runtime.getIterator(v, nil)
 	})
+	g.state = state
 	if ex != nil {
 		g.delegated = nil
 		g.state = genStateCompleted
@@ -959,9 +963,12 @@ func (g *generatorObject) delegate(v Value) Value {
 }
 
 func (g *generatorObject) tryCallDelegated(fn func() (Value, bool)) (ret Value, done bool) {
+	state := g.state
+	g.state = genStateExecuting
 	ex := g.val.runtime.try(func() {
 		ret, done = fn()
 	})
+	g.state = state
 	if ex != nil {
 		g.delegated = nil
 		g.state = genStateExecuting
